@@ -67,6 +67,8 @@ OPS = [
     'scope', 'until', 'until true', 'raise',
     'scope failing', 'until graceful', 'first slow failing',
 ]
+# ops with more free dates than the others: explored in a family of their own (C03 `rare_ops`)
+RARE = ['first backlog failing', 'delayed cancelled']
 
 
 def make_op(W, name, tag):
@@ -379,6 +381,51 @@ def make_op(W, name, tag):
                     await (time + b)        # busy consumer: the failure may strike here
             except Concurrent:
                 L('concurrent')
+    elif name == 'first backlog failing':
+        # a busy consumer with a result already buffered when it asks for the next one, and an
+        # activity that fails in two stages: its second delay may start after the consumer's, so
+        # that its failure is queued behind the consumer's wake-up of the same time step
+        d1, d2 = n('d1', 0, 6), n('d2', 0, 6)
+        e1, e2 = n('e1', 0, 6), n('e2', 0, 6)
+        b = n('b', 0, 6)
+
+        async def sub(d, r):
+            await (time + d)
+            return r
+
+        async def failing():
+            await (time + e1)
+            await (time + e2)
+            L('sub-raise')
+            raise W.err
+
+        async def victim():
+            try:
+                async for r in first(sub(d1, 'a'), sub(d2, 'b'), failing(), count=None):
+                    L('result', r)
+                    await (time + b)
+            except Concurrent:
+                L('concurrent')
+    elif name == 'delayed cancelled':
+        # a task with a start delay that is cancelled before / after the first turn of its
+        # wrapper, in a scope whose body may end before the start date
+        d = n('d')
+        b = n('b')
+        p = W.E.pick('%s_turns' % tag, 3)
+
+        async def sub():
+            L('sub-start')
+            await (time + 1)
+
+        async def victim():
+            async with Scope() as s:
+                t = s.do(sub(), after=d)
+                t2 = s.do(sub(), at=now() + d)
+                for _ in range(p):
+                    await instant
+                t.cancel()
+                t2.cancel()
+                await (time + b)
     elif name == 'raise':
         d = n('d')
 
